@@ -351,7 +351,7 @@ def kani_f64(report, tier):
         let _s = x + y;
     """, expect="fail", unwind=5, key="canary", symbolic=False))
     report.bounds["kani_f64"] = "every f64 bit pattern for all amounts, every unit tuple by symbolic indices: 13 types x 13 like-quantity operations, 34 derived operators x 4 operand forms, Rate<Length,Duration> operations, the temperature table"
-    kc.run(report, timeout=1500)
+    kc.run(report, timeout=(600 if tier == "quick" else 3000))
     confirm_failures(report)
 
 
